@@ -217,9 +217,17 @@ def evaluate(case, obs):
         for s in obs.sends:
             if s.get("accepted") and "outcome" not in s:
                 out.fail("fatal", "pending_send_not_failed", {"id": s["id"]})
-        # nothing written after the fatal error reply was delivered
-        for a in c.arrivals:
+        # nothing written after the fatal error reply was delivered - except the one request of an operation that was
+        # already under way when it arrived (e.g. a TxnOffsetCommit whose group-coordinator lookup had just returned and
+        # whose connection to that node was still being set up: connect + ApiVersions take a few round trips)
+        grace = max(SLACK, 12 * max(case.get("lat") or [0.001]))
+        under_way = set()
+        for a in sorted(c.arrivals, key=lambda x: x.t_written or 0):
             if a.api in c07.TXN_APIS and a.t_written > t_err + SLACK and a.client_id == "p0":
+                if a.t_written <= t_err + grace and a.api not in under_way and a.api != "produce":
+                    under_way.add(a.api)
+                    out.label("request_under_way_at_fatal_error")
+                    continue
                 out.fail("fatal", "request_written_after_fatal_error:" + a.api,
                          {"arrival": a.seq, "t_written": a.t_written, "t_err": t_err})
                 break
